@@ -161,18 +161,27 @@ def mvalDate? : MVal → Except Err Date
 
 /-- `_create_metadata` for one row: the six columns with NaN / missing column → the default's
 attribute (`Metadata()`: risk_basis "Accident", the rest `None`), detail columns with NaN → absent -/
+def rowStr (r : Row) (k : String) (d : Option String) : Option String :=
+  match Row.col r k with
+  | .str x => some x
+  | _ => d
+
+def rowDetail (r : Row) (c : String) : Option (String × MVal) :=
+  match Row.col r c with
+  | .none => none
+  | v => some (c, v)
+
+def rowDetails (r : Row) (cols : List String) : Dict MVal := sortItems (cols.filterMap (rowDetail r))
+
 def rowMetadata (r : Row) (detailCols lossDetailCols : List String) : Metadata :=
   let dflt : Metadata := {}
-  let s (k : String) (d : Option String) : Option String :=
-    match Row.col r k with | .none => d | .str x => some x | _ => d
-  let details (cols : List String) : Dict MVal :=
-    sortItems (cols.filterMap fun c => match Row.col r c with | .none => none | v => some (c, v))
-  { riskBasis := s "risk_basis" dflt.riskBasis, country := s "country" dflt.country,
-    currency := s "currency" dflt.currency, reinsuranceBasis := s "reinsurance_basis" dflt.reinsuranceBasis,
-    lossDefinition := s "loss_definition" dflt.lossDefinition,
+  { riskBasis := rowStr r "risk_basis" dflt.riskBasis, country := rowStr r "country" dflt.country,
+    currency := rowStr r "currency" dflt.currency,
+    reinsuranceBasis := rowStr r "reinsurance_basis" dflt.reinsuranceBasis,
+    lossDefinition := rowStr r "loss_definition" dflt.lossDefinition,
     limit := mvalNum? (Row.col r "per_occurrence_limit"),
-    details := details (detailCols.filter (!lossDetailCols.contains ·)),
-    lossDetails := details lossDetailCols }
+    details := rowDetails r (detailCols.filter (!lossDetailCols.contains ·)),
+    lossDetails := rowDetails r lossDetailCols }
 
 /-- the key list of `df.groupby([...])` in reader `fn`, from the GENERATED table, with the local
 variables expanded -/
